@@ -924,7 +924,11 @@ static void run_fir7(Json& js, vh::Rng& rng, int sets, int k) {
 // FftFilter vs FirFilter on arbitrary data, long taps (T1m) and FirFilter vs long-double definition (T3)
 static void run_equiv(Json& js, vh::Rng& rng, long budget, bool big) {
     for (long t = 0; t < budget; ++t) {
-        const int nh = (int)(big ? rng.range(2, 1024) : rng.range(2, 200));
+        int nh = (int)(big ? rng.range(2, 1024) : rng.range(2, 200));
+        if (t % 5 == 4) {   // tap counts at and around powers of two and their multiples (tiled / unrolled kernels)
+            static const int SP[] = {64, 128, 256, 512, 768, 1024, 255, 257, 384};
+            nh = SP[rng.range(0, big ? 8 : 2)] + (rng.range(0, 3) == 0 ? (int)rng.range(-1, 1) : 0);
+        }
         const int n = (int)rng.range(0, big ? 20000 : 3000);
         const bool cplx = rng.coin();
         const int kind = (int)rng.range(0, 4);
